@@ -343,7 +343,11 @@ def _run_proc(exe, lines, timeout, env=None, mem=None):
         out = ex.stdout or b''
         status = 'timeout'
     res = {}
-    for l in out.decode('utf-8', 'replace').split('\n'):
+    text = out.decode('utf-8', 'replace')
+    lines_out = text.split('\n')
+    if not text.endswith('\n') and lines_out:
+        lines_out = lines_out[:-1]     # a line cut short by a kill/timeout is not an answer
+    for l in lines_out:
         if not l:
             continue
         k, _, v = l.partition('\t')
